@@ -11,6 +11,7 @@ CONSTANTS
   BigCode = 43
   BigLens = {0, 1, 64, 254, 255}
   IdClasses = {"rand"}
+  WriteFailures = {"none"}
   NICs = {"nicA"}
   Parts = {"dhcp"}
 INVARIANTS Export ModelOK
